@@ -13,7 +13,8 @@ DIMS = dict(
     pc=["control", "control+", "both", None],
     horizon=["fixed", "Tparam", "t0param"],
     use=["rhs", "bound", "objective", "initial"],
-    pgval=["a", "b"],
+    pgval=["a", "b", "one"],
+    pgtype=["float", "int", "np0d", "npscalar", "np1", "np11", "dm", "list"],
     pcval=["A", "B", "e0", "e1", "eN"],
     pgmval=["default", "e00", "e10", "e01", "e11"],
     hval=["default", "other"],
@@ -29,7 +30,11 @@ def pvals_of(a, d):
     pv = {}
     n = d["N"] + (1 if d["pc"] == "control+" else 0)
     if d["pg"] == "scalar":
-        pv["pg"] = {"a": 0.45, "b": -0.8}[a["pgval"]]
+        pv["pg"] = {"a": 0.45, "b": -0.8, "one": 1.0}[a["pgval"]]
+        if a.get("pgtype", "float") != "float":
+            pv["pg_type"] = a["pgtype"]
+            if a["pgtype"] == "int":
+                pv["pg"] = 1.0          # (an integer-valued number for the python-int form)
     if d["pg"] == "mat":
         if a["pgmval"] != "default":
             E = np.zeros((2, 2)); E[int(a["pgmval"][1]), int(a["pgmval"][2])] = 1.0
